@@ -339,7 +339,7 @@ def oracle_cli(case):
         k1, k2 = e["r1"], e["r2"]
         if k1 % len(residues) == k2 % len(residues):
             k2 = k1 + 1
-        lines.append(f"{unit(k1, e['form'])}\t{e['label']}\t{unit(k2, e['form'])}\t0")
+        lines.append(f"{unit(k1, e['form'])}\t{e['label']}\t{unit(k2, e['form'])}" + ("" if (k1 + k2) % 5 == 0 else "\t0"))
     text = "\n".join(lines) + "\n"
     os.makedirs(WORK_DIR, exist_ok=True)
     base = os.path.join(WORK_DIR, f"c19cli_{os.getpid()}")
@@ -457,7 +457,8 @@ def st_listing():
                 u2 = u2 + ch + "x" if u2.count("|") >= 8 else u2
             return f"{u1}\t{lab}\t{u2}\t0"
         if kind == "valid":
-            return f"{draw(unit())}\t{lab}\t{draw(unit())}\t0"
+            # with the crossing-number column, without it (three fields), or with an empty fourth field
+            return f"{draw(unit())}\t{lab}\t{draw(unit())}" + draw(st.sampled_from(["\t0", "\t0", "\t0", "", "\t"]))
         if kind == "extra":
             return f"{draw(unit())}\t{lab}\t{draw(unit())}\t0\tx|y|z\t\t7"
         if kind == "bad1":
